@@ -16,6 +16,8 @@ func init() {
 				{Harness: "c09.multi", Mode: "plain", Shards: 16},
 				{Harness: "c09.strings", Mode: "plain", Shards: 16},
 				{Harness: "c09.retain", Mode: "plain", Shards: 16},
+				{Harness: "c09.lengths", Mode: "plain", Shards: 16},
+				{Harness: "c09.members", Mode: "plain", Shards: 16},
 			}
 		},
 	})
